@@ -187,15 +187,34 @@ impl Sim {
     fn rerender_differs(&mut self, log: &Log, v: &Stmt) -> Result<bool, Stop> {
         let fresh = guarded(|| replay(log))
             .map_err(|e| Stop::Harness(format!("lineage replay panicked: {}", e)))?;
-        let e2 = canon(&fresh, false);
-        let g2 = canon(v, true);
-        // ... or if one and the same value renders differently twice in a row
-        if e2 == g2 || canon(&fresh, false) != e2 || canon(v, true) != g2 {
+        // ... or if one and the same value does not render the same way every time
+        let (really, _) = Self::stable_difference(&fresh, &|| canon(v, true), &|e, g| e != g);
+        if !really {
             self.stats.probe("rendering_depends_on_hidden_state_not_on_the_value");
-            Ok(false)
-        } else {
-            Ok(true)
         }
+        Ok(really)
+    }
+
+    /// Both sides rendered three times each in the order e g g e e g (so that hidden state
+    /// with a period of two renderings cannot look stable): the difference counts only if every
+    /// rendering of the lineage replay is the same, every rendering of the value is the same,
+    /// and the two differ. Returns (really differs, first rendering of the replay).
+    fn stable_difference(
+        fresh: &Stmt,
+        value: &dyn Fn() -> Vec<String>,
+        differs: &dyn Fn(&[String], &[String]) -> bool,
+    ) -> (bool, Vec<String>) {
+        let e1 = canon(fresh, false);
+        let g1 = value();
+        if !differs(&e1, &g1) {
+            return (false, e1);
+        }
+        let g2 = value();
+        let e2 = canon(fresh, false);
+        let e3 = canon(fresh, false);
+        let g3 = value();
+        let stable = e1 == e2 && e2 == e3 && g1 == g2 && g2 == g3;
+        (stable, e1)
     }
 
     /// one and the same live value renders differently twice in a row
@@ -222,15 +241,15 @@ impl Sim {
         let got = self.live_canon(h);
         self.stats.check(check);
         // C10 speaks about rendered INSERTs: where the live statement does not render at all
-        // (a panic where the lineage renders) there is no rendered INSERT to judge, here as in
-        // the structural check below
+        // (a panic, whatever the lineage does there) there is no rendered INSERT to judge, here
+        // as in the structural check below
         let c10 = self.c10();
         let differs = |e: &[String], g: &[String]| {
             if !c10 {
                 return e != g;
             }
             e.len() != g.len()
-                || e.iter().zip(g).any(|(e, g)| e != g && !(g.starts_with("PANIC:") && e.starts_with("OK:")))
+                || e.iter().zip(g).any(|(e, g)| e != g && !g.starts_with("PANIC:"))
         };
         if differs(&exp, &got) {
             // Before blaming the statement: render both sides again, now. If a fresh replay and
@@ -240,9 +259,8 @@ impl Sim {
             let log = self.model[&h].log.clone();
             let fresh = guarded(|| replay(&log))
                 .map_err(|e| Stop::Harness(format!("lineage replay panicked: {}", e)))?;
-            let exp2 = canon(&fresh, false);
-            let got2 = self.live_canon(h);
-            if !differs(&exp2, &got2) || canon(&fresh, false) != exp2 || self.live_unstable(h) {
+            let (really, exp2) = Self::stable_difference(&fresh, &|| self.live_canon(h), &differs);
+            if !really {
                 self.stats.probe("rendering_depends_on_hidden_state_not_on_the_value");
                 let m = self.model.get_mut(&h).unwrap();
                 m.rep = Some(fresh);
@@ -1034,7 +1052,7 @@ impl Sim {
                 let live3 = observe_one(a.get(h).unwrap(), &clean, true);
                 live2.out != exp2.out && live3.out == live2.out
             };
-            let no_rendered_insert = self.c10() && res.out.is_err() && exp.out.is_ok();
+            let no_rendered_insert = self.c10() && res.out.is_err();
             if exp.out != res.out && !no_rendered_insert && second_look_differs(self) {
                 return Err(self.viol(
                     "observe.pure",
